@@ -2,6 +2,6 @@
 # usage: seed_sweep.sh "<seeds>" <Cnn>... — quick tier of each check at each seed, one line per run
 SEEDS=$1; shift
 for s in $SEEDS; do for c in "$@"; do
-  R=$(VERIF_SEED=$s ./check $c --tier quick 2>&1 | grep -E "^(VIOLATION|OK|CHECK-ERROR)" | head -2 | cut -c1-160 | tr '\n' ' ')
+  R=$(VERIF_SWEEP=1 VERIF_SEED=$s ./check $c --tier quick 2>&1 | grep -E "^(VIOLATION|OK|CHECK-ERROR)" | head -2 | cut -c1-160 | tr '\n' ' ')
   echo "seed=$s $c: $R"
 done; done
